@@ -1,5 +1,5 @@
 """Exploration helper: run a check's cases and bucket violations by signature instead of stopping at the first.
-usage: tools/bucket.py <ID> <n_examples> [seed]"""
+usage: tools/bucket.py <ID> <n_examples> [seed] [known,keys]"""
 import sys, os, collections, re
 sys.path.insert(0, "/verif"); os.environ.setdefault("PYTHONHASHSEED", "0")
 from vf.runner import setup_path, load_check, Stats, run_one
@@ -18,13 +18,14 @@ def t(case):
     try:
         run_one(check, case, stats, known)
     except Violation as v:
-        msg = re.sub(r"\d+", "N", str(v.extra.get("msg", v.detail)).split("[SQL")[0][:70])
-        sig = (v.kind, v.extra.get("sig"), msg, getattr(v, "attributed", None))
+        extra = {k: v.extra[k] for k in ("sig", "pair", "diff", "half", "field", "symptom", "phase") if k in v.extra}
+        msg = re.sub(r"\d+", "N", str(v.extra.get("msg", "")).split("[SQL")[0][:60])
+        sig = (v.kind, tuple(sorted(extra.items())), msg, getattr(v, "attributed", None))
         buckets[sig] += 1
-        d = check.describe(case)
-        if sig not in examples or len(str(d)) < len(str(examples[sig][0])):
-            examples[sig] = (d, v.detail[:600])
+        d = str(check.describe(case))
+        if sig not in examples or len(d) < len(examples[sig][0]):
+            examples[sig] = (d, v.detail[:700])
 t()
 print("evaluations", stats.evaluations, {k: v for k, v in stats.c.items() if k.startswith(("attr", "disc", "build"))})
 for sig, cnt in buckets.most_common():
-    print("==", cnt, sig); print("   ", str(examples[sig][0].get("program"))[:300], "|", examples[sig][1][:200].replace("\n", " "))
+    print("==", cnt, sig); print("   ", examples[sig][1][:600].replace("\n", " "))
